@@ -19,11 +19,11 @@ from harness import common as C
 RULE = ('histories over the alphabet {read_x, read_y, read_r, read_t, crop, pad1, pad21, padshape0, mask, mask_r, fill, spike_clip, '
         'remove_piston, remove_tiptilt, remove_power, recenter, latcal2, latcal037, strip_latcal, filter, exact_xy, exact_x, pvr, slices, '
         'copy, psd} by prefix-shared DFS: quick = length 3 over 21 of the operations on 2 configurations and length 2 over all 26 on 26 more; '
-        'thorough = length 4 on 1, length 3 on 14, length 2 on the other 34, length 5 over the 11 coordinate-relevant operations on 1; '
+        'thorough = length 4 on 1, length 3 on 11, length 2 on the others, length 5 over the 11 coordinate-relevant operations on 1; '
         'configurations = shape in {8x8, 9x7, 12x9, 7x10, 7x7} x invalid pattern in {none, circular, ragged edge, interior dropouts, mixed '
         'NaN/+inf/-inf} x dx in {1, 0.37}; dx = 0 (constructor without lateral calibration) with length-2 histories over the operations '
         'that do not divide by dx; memory layouts: data Fortran-ordered / a transposed view / strided / negatively strided x every invalid '
-        'pattern x shapes 9x7, 7x10, every operation (length 1; length 2 on 4 (quick), length 2 on all and 3 on 12 (thorough)), each history '
+        'pattern x shapes 9x7, 7x10, every operation (length 1; length 2 on 4 (quick), length 2 on all and 3 on 4 (thorough)), each history '
         'run on a C-contiguous copy as well and the two objects compared after every step; seeded random histories up to length 40 (random '
         'layout) with value-level model comparison at every step; crop '
         'additionally on every shape of a list (wide, tall, square, odd/even, 1-wide) x all 16 combinations of touching-the-edge / '
@@ -882,7 +882,7 @@ def correspondence(ctx):
     for k, (lay, pat, shape) in enumerate(itertools.product(LAYOUTS[1:], PATTERNS, [(9, 7), (7, 10)])):
         lcfgs.append({'shape': list(shape), 'pattern': pat, 'dx': DXS[k % 2], 'data_seed': 3000 + k, 'layout': lay})
     lorder = list(ctx.rng.permutation(len(lcfgs)))
-    ldeep = set(lorder[:ctx.scale(4 + 2 * widen, 12)])
+    ldeep = set(lorder[:ctx.scale(4 + 2 * widen, 4)])
     for k, cfg in enumerate(lcfgs):
         depth = (ctx.scale(2, 3) if k in ldeep else ctx.scale(1, 2))
         _dfs(run, cfg, make_obj(cfg), [], [], ALPHABET if depth < 3 else DFS3_ALPHABET, depth)
@@ -898,7 +898,7 @@ def correspondence(ctx):
     if not ctx.thorough:
         mid = mid[:26]
     for k, cfg in enumerate(mid):
-        _dfs(run, cfg, make_obj(cfg), [], [], ALPHABET, ctx.scale(2, 3) if not (ctx.thorough and k >= 14) else 2,
+        _dfs(run, cfg, make_obj(cfg), [], [], ALPHABET, ctx.scale(2, 3) if not (ctx.thorough and k >= 11) else 2,
              values=(k < 6))
     run.flush()
     if ctx.thorough:
